@@ -8,6 +8,7 @@ import atexit
 import concurrent.futures as cf
 import hashlib
 import json
+import glob
 import os
 import re
 import shutil
@@ -107,6 +108,51 @@ def drive(binary, args, cwd=None, timeout=3600):
 
 
 # ---------------------------------------------------------------- TLC
+def repo_tests_trace(work, binary, out, only=None, runbase=8000000, timeout=900):
+    """the repository's OWN scenario tests (testcases/*_test.go of /repo's current working tree) run against the real
+    engine with every game wrapped by harness/vrec; the recorded calls are projected by `vdrive holdem-convert`.
+    A test that FAILS is the repository's business, not a verdict: only what the engine did is looked at."""
+    d = work.sub("repotests" + ("-" + re.sub(r"\W", "", only) if only else ""))
+    td = os.path.join(d, "testcases")
+    os.makedirs(td, exist_ok=True)
+    gm = re.sub(r"^module .*$", "module repotests", open(os.path.join(REPO, "go.mod")).read(), count=1, flags=re.M)
+    gm += "\nrequire github.com/weedbox/pokerface v0.0.0\nrequire vdrive v0.0.0\nreplace github.com/weedbox/pokerface => %s\nreplace vdrive => %s\n" % (REPO, HARNESS)
+    open(os.path.join(d, "go.mod"), "w").write(gm)
+    shutil.copy(os.path.join(REPO, "go.sum"), os.path.join(d, "go.sum"))
+    n = 0
+    for f in sorted(glob.glob(os.path.join(REPO, "testcases", "*_test.go"))):
+        if os.path.basename(f).startswith("zz_"):
+            continue
+        src = open(f).read()
+        if "pokerface.NewPokerFace()" in src:
+            src = src.replace("pokerface.NewPokerFace()", "vrec.NewPokerFace()")
+            src = src.replace('"github.com/weedbox/pokerface"\n', '"github.com/weedbox/pokerface"\n\t"vdrive/vrec"\n', 1)
+            n += 1
+        open(os.path.join(td, os.path.basename(f)), "w").write(src)
+    raw = os.path.join(d, "raw.ndjson")
+    if os.path.exists(raw):
+        os.remove(raw)
+    cmd = ["go", "test", "-tags", "verif", "-vet=off", "-count=1", "./testcases/"]
+    if only:
+        cmd[5:5] = ["-run", "^%s$" % only]
+    try:
+        p = subprocess.run(cmd, cwd=d, env=dict(GOENV, VERIF_RAW_OUT=raw), stdout=subprocess.PIPE, stderr=subprocess.STDOUT, text=True, timeout=timeout)
+    except subprocess.TimeoutExpired:
+        raise Inconclusive("the repository's scenario tests did not finish in %ds" % timeout)
+    if not os.path.exists(raw) or os.path.getsize(raw) == 0:
+        if "[build failed]" in p.stdout or "cannot find" in p.stdout or "undefined" in p.stdout:
+            # the tests of a changed tree may not compile against the wrapper (e.g. an interface that grew): no trace, no verdict
+            log("[repotests] not built: " + p.stdout[-400:].replace("\n", " | "))
+            return dict(runs=0, steps=0, lines=0, tests=[], built=False, test_files=n)
+        raise Inconclusive("the repository's scenario tests recorded nothing:\n" + p.stdout[-1500:])
+    st = drive(binary, ["holdem-convert", "-in", raw, "-o", out, "-runbase", runbase])
+    st["built"] = True
+    st["test_files"] = n
+    st["go_test_ok"] = p.returncode == 0
+    os.remove(raw)
+    return st
+
+
 def spec_copy(dst):
     for f in os.listdir(SPEC):
         if f.endswith(".tla") or f.endswith(".cfg"):
